@@ -61,6 +61,8 @@ import BGV
 #print axioms BGV.C05_und_getEdgeWeight
 #print axioms BGV.C05_und_readd_noop
 #print axioms BGV.C05_und_total
+#print axioms BGV.C05_dir_weightMatrix
+#print axioms BGV.C05_und_weightMatrix
 
 -- C06
 #print axioms BGV.C06_eq_iff_same_graph
